@@ -45,7 +45,12 @@ def post_LEVINSON(r, order, allow_singularity, result):
         return
     r0 = float(np.real(ra[0]))
     if not r0 > 0:
-        c.discard('LEVINSON:r0-not-positive')
+        # a sequence with a non-positive zero lag is not positive definite: it must have been rejected
+        if not allow_singularity and r0 < 0:
+            c.fail('LEVINSON:indefinite-accepted', {'r0': r0, 'order': M}, {'fn': 'LEVINSON', 'cplx': bool(np.iscomplexobj(ra)),
+                                                                             'negative_zero_lag': True})
+        else:
+            c.discard('LEVINSON:r0-not-positive')
         return
     lmin, lmax = _definiteness(ra, M)
     cplx = bool(np.iscomplexobj(ra))
@@ -209,10 +214,17 @@ def make_ac(c, d):
         r = refs.ac_from_rc(k, 10.0 ** rng.uniform(-2, 2))
     if d.get('scale10'):
         r = r * 10.0 ** d['scale10']          # positive definiteness does not depend on the overall scale
+    if d.get('indefinite') and d.get('i', 1) % 3 == 1:
+        r = r.copy()
+        r[0] = -abs(r[0])                # only the sign of the zero lag is wrong
+        return r if cplx else r.real
     if d.get('indefinite'):
         j = int(rng.integers(1, p + 1))
         r = r.copy()
         r[j] = 1.7 * abs(r[0]) * (np.exp(2j * np.pi * rng.uniform()) if cplx else rng.choice([-1.0, 1.0]))
+        if d.get('i', 0) % 3 == 0:
+            r[0] = -abs(r[0])            # negative zero lag (with |r[j]| > |r[0]|: the recursion alone may not notice)
+            r[1] = 1.7 * abs(r[0]) * (np.exp(2j * np.pi * rng.uniform()) if cplx else rng.choice([-1.0, 1.0]))
     if not cplx:
         r = r.real
     return r
@@ -276,8 +288,8 @@ def run_case(c, d):
             arg = r if d['cont'] == 'intarray' else [int(v) for v in r]
         feats = {'fn': 'LEVINSON', 'cplx': bool(d['cplx'])}
         if d.get('indefinite'):
-            lmin, _ = _definiteness(r, p)
-            if lmin >= -1e-6 * abs(r[0]):
+            lmin, _ = _definiteness(np.concatenate([[abs(r[0])], r[1:]]) if np.real(r[0]) < 0 else r, p)
+            if np.real(r[0]) > 0 and lmin >= -1e-6 * abs(r[0]):
                 c.discard('workload:perturbation-not-indefinite')
                 return
             try:
